@@ -16,6 +16,7 @@ import (
 	"os"
 	"runtime"
 	"strconv"
+	"strings"
 	"sync"
 	"sync/atomic"
 	"syscall"
@@ -532,5 +533,386 @@ func TestVerifC20(t *testing.T) {
 			return c20Result{Panic: "bad case: " + err.Error()}
 		}
 		return c20Run(cs)
+	})
+}
+
+// ------------------------------------------------------------------------------------------------
+// Atomic-step correspondence: a deterministic scheduler runs 2-3 signal goroutines, the holder and the
+// release goroutine through the yield points that tools/c20.py inserts (build-time overlay copy of
+// cmd/run.go and dialer/sticky_cache.go) before every statement of tryQueueReloadRequest,
+// clearReloadPending, releaseReloadPendingAfterRetirement and Begin/EndReloadProxyFailureSuppression.
+// Exactly one managed goroutine runs at any time; everything is parked on channels (events), never on
+// sleeps.
+
+// verifC20Yield is the hook the instrumented run.go calls.
+var verifC20Yield = func(fn, label string) {}
+
+type c20Park struct {
+	fn, label string
+	done      bool
+	ret       int64
+}
+
+type c20Thread struct {
+	kind   string // sig | holder | releaser
+	resume chan struct{}
+	parked chan c20Park
+	at     c20Park
+	susp   bool
+	ops    []c20Op
+}
+
+type c20Sched struct {
+	cur     *c20Thread
+	spawned chan *c20Thread
+}
+
+func (s *c20Sched) yield(fn, label string) {
+	if label == "spawned" {
+		th := &c20Thread{kind: "releaser", resume: make(chan struct{}), parked: make(chan c20Park, 1)}
+		th.at = c20Park{fn: fn, label: "spawned"}
+		s.spawned <- th
+		<-th.resume
+		return
+	}
+	th := s.cur
+	if label == "exit" {
+		// deferred at the top of a spawned goroutine: it is over
+		th.parked <- c20Park{done: true}
+		return
+	}
+	th.parked <- c20Park{fn: fn, label: label}
+	<-th.resume
+}
+
+type c20MicroStep struct {
+	T      int    `json:"t"`
+	Close  int    `json:"close"`
+	Until  string `json:"until,omitempty"` // "fn/label-substring" | "done"
+	N      int    `json:"n,omitempty"`
+	IsClose bool  `json:"is_close,omitempty"`
+}
+
+type c20MicroCase struct {
+	Threads []struct {
+		Kind string  `json:"kind"`
+		B    bool    `json:"b"`
+		Ops  []c20Op `json:"ops"`
+	} `json:"threads"`
+	Steps []c20MicroStep `json:"steps"`
+	Drain bool           `json:"drain"`
+}
+
+type c20MicroRec struct {
+	T     int    `json:"t"` // -1: the scheduler closed a retirement channel
+	Fn    string `json:"fn"`
+	Label string `json:"label"`
+	Obs   c20Obs `json:"obs"`
+	Done  bool   `json:"done,omitempty"`
+	Ret   int64  `json:"ret,omitempty"`
+	Close int    `json:"close,omitempty"`
+}
+
+type c20MicroResult struct {
+	Recs    []c20MicroRec `json:"recs"`
+	Kinds   []string      `json:"kinds"` // kind of every thread, spawned ones included
+	Rets    []int64       `json:"rets"`  // -1 unfinished
+	Note    string        `json:"note,omitempty"`
+	Dump    string        `json:"dump,omitempty"`
+	Panic   string        `json:"panic,omitempty"`
+}
+
+func c20RunMicro(cs c20MicroCase) (res c20MicroResult) {
+	defer func() {
+		if r := recover(); r != nil {
+			res.Panic = fmt.Sprint(r)
+		}
+	}()
+	outbounddialer.VerifC20ResetSuppression()
+	prog := &c20Progress{code: consts.ReloadDone}
+	prog.cond = sync.NewCond(&prog.mu)
+	oldSet, oldGet := setRunSignalProgress, getRunSignalProgress
+	setRunSignalProgress = prog.set
+	getRunSignalProgress = prog.get
+	sched := &c20Sched{spawned: make(chan *c20Thread, 8)}
+	oldY, oldDY := verifC20Yield, outbounddialer.VerifC20Yield
+	verifC20Yield = sched.yield
+	outbounddialer.VerifC20Yield = sched.yield
+	defer func() {
+		setRunSignalProgress, getRunSignalProgress = oldSet, oldGet
+		verifC20Yield, outbounddialer.VerifC20Yield = oldY, oldDY
+	}()
+	log := newC20Logger()
+	m := newReloadManager(make(chan reloadRequest, 1), make(chan struct{}, 1), make(chan os.Signal, 1))
+	var dones []chan struct{}
+	var closed []bool
+	var threads []*c20Thread
+	lastTaken := -1
+
+	observe := func() c20Obs {
+		supp, _ := outbounddialer.VerifC20Suppression()
+		prog.mu.Lock()
+		code, content := prog.code, prog.content
+		prog.mu.Unlock()
+		msg := "Other"
+		switch content {
+		case "":
+			msg = "None"
+		case reloadBusyActiveMessage:
+			msg = "Active"
+		case reloadBusyRetiringMessage:
+			msg = "Retiring"
+		}
+		return c20Obs{Pending: m.reloadPending.Load(), Active: m.reloadActive.Load(), Reloading: m.reloading.Load(),
+			Supp: supp, Qlen: len(m.reloadReqs), Code: c20CodeName(code), Msg: msg}
+	}
+	start := func(th *c20Thread, body func() int64) {
+		th.resume = make(chan struct{})
+		th.parked = make(chan c20Park, 1)
+		th.at = c20Park{fn: "start", label: ""}
+		go func() {
+			<-th.resume
+			r := body()
+			th.parked <- c20Park{done: true, ret: r}
+		}()
+	}
+	for _, t := range cs.Threads {
+		th := &c20Thread{kind: t.Kind, susp: t.B, ops: t.Ops}
+		switch t.Kind {
+		case "sig":
+			susp := t.B
+			start(th, func() int64 {
+				if m.queueReloadRequest(log, reloadRequest{isSuspend: susp, requestedAt: time.Now()}) {
+					return 1
+				}
+				return 0
+			})
+		case "holder":
+			ops := t.Ops
+			start(th, func() int64 {
+				for _, op := range ops {
+					sched.yield("op", op.Op)
+					switch op.Op {
+					case "T":
+						select {
+						case <-m.reloadReqs:
+						default:
+							panic("holder scheduled on an empty channel")
+						}
+					case "A":
+						m.reloadActive.Store(op.B)
+					case "L":
+						m.reloading.Store(op.B)
+					case "K":
+						clearReloadPending(&m.reloadPending)
+					case "F":
+						m.finishReloadFailure()
+					case "O":
+						m.mu.Lock()
+						taken := m.pendingRetirementDone
+						m.mu.Unlock()
+						lastTaken = -1
+						for i, ch := range dones {
+							if (<-chan struct{})(ch) == taken {
+								lastTaken = i
+							}
+						}
+						m.finishReloadSuccess()
+					case "H":
+						m.beginHandoff()
+					case "X":
+						m.clearPendingRetirement()
+					case "RD":
+						ch := make(chan struct{})
+						dones = append(dones, ch)
+						closed = append(closed, false)
+						m.mu.Lock()
+						m.pendingRetirementDone = ch
+						m.mu.Unlock()
+					default:
+						panic("unknown holder op " + op.Op)
+					}
+				}
+				return 0
+			})
+		default:
+			panic("unknown thread kind " + t.Kind)
+		}
+		threads = append(threads, th)
+	}
+	stuck := func(what string) {
+		if res.Note == "" {
+			res.Note = what
+			res.Dump = c20Dump()
+		}
+	}
+	// which retirement channel a release goroutine waits for: the one published when it was spawned
+	waitsFor := map[*c20Thread]int{}
+	enabled := func(th *c20Thread) bool {
+		if th.at.done {
+			return false
+		}
+		if th.kind == "holder" && th.at.fn == "op" && th.at.label == "T" {
+			return len(m.reloadReqs) > 0
+		}
+		if th.kind == "releaser" && strings.Contains(th.at.label, "recv") {
+			d, ok := waitsFor[th]
+			return ok && d < len(closed) && closed[d]
+		}
+		return true
+	}
+	step := func(ti int) bool {
+		if ti < 0 || ti >= len(threads) {
+			return false
+		}
+		th := threads[ti]
+		if !enabled(th) {
+			return false
+		}
+		before := th.at
+		wasGo := before.label == "go"
+		sched.cur = th
+		th.resume <- struct{}{}
+		select {
+		case p := <-th.parked:
+			th.at = p
+		case <-time.After(c20Long()):
+			stuck("thread-stuck")
+			th.at = c20Park{done: true, ret: -2}
+		}
+		if wasGo {
+			select {
+			case nt := <-sched.spawned:
+				// the goroutine waits on the channel that finishReloadSuccess took
+				waitsFor[nt] = lastTaken
+				threads = append(threads, nt)
+			case <-time.After(c20Long()):
+				stuck("spawn-stuck")
+			}
+		}
+		res.Recs = append(res.Recs, c20MicroRec{T: ti, Fn: before.fn, Label: before.label, Obs: observe(), Done: th.at.done, Ret: th.at.ret})
+		return true
+	}
+	matches := func(th *c20Thread, until string) bool {
+		if th.at.done {
+			return true
+		}
+		if until == "done" {
+			return false
+		}
+		parts := strings.SplitN(until, "/", 2)
+		if len(parts) == 2 {
+			return strings.Contains(th.at.fn, parts[0]) && strings.Contains(th.at.label, parts[1])
+		}
+		return strings.Contains(th.at.label, until)
+	}
+	closeDone := func(d int) {
+		if d >= 0 && d < len(dones) && !closed[d] {
+			close(dones[d])
+			closed[d] = true
+			res.Recs = append(res.Recs, c20MicroRec{T: -1, Fn: "close", Close: d, Obs: observe()})
+		}
+	}
+	for _, st := range cs.Steps {
+		if st.IsClose {
+			closeDone(st.Close)
+			continue
+		}
+		if st.Until != "" {
+			for i := 0; i < 200 && st.T < len(threads) && !matches(threads[st.T], st.Until); i++ {
+				if !step(st.T) {
+					break
+				}
+			}
+			continue
+		}
+		n := st.N
+		if n <= 0 {
+			n = 1
+		}
+		for i := 0; i < n; i++ {
+			if !step(st.T) {
+				break
+			}
+		}
+	}
+	if cs.Drain {
+		for round := 0; round < 400; round++ {
+			progress := false
+			for ti := 0; ti < len(threads); ti++ {
+				if step(ti) {
+					progress = true
+				}
+			}
+			if !progress {
+				// only goroutines waiting for a retirement can be left: let the retirements finish
+				opened := false
+				for d := range dones {
+					if !closed[d] {
+						closeDone(d)
+						opened = true
+					}
+				}
+				if !opened {
+					break
+				}
+			}
+		}
+	}
+	for _, th := range threads {
+		if th.at.done {
+			res.Rets = append(res.Rets, th.at.ret)
+		} else {
+			res.Rets = append(res.Rets, -1)
+		}
+		res.Kinds = append(res.Kinds, th.kind)
+	}
+	// release whatever is still parked so that no goroutine outlives the case
+	for d := range dones {
+		if !closed[d] {
+			close(dones[d])
+			closed[d] = true
+		}
+	}
+	for guard := 0; guard < 2000; guard++ {
+		any := false
+		for ti := 0; ti < len(threads); ti++ {
+			th := threads[ti]
+			if th.at.done {
+				continue
+			}
+			if th.kind == "holder" && th.at.fn == "op" && th.at.label == "T" && len(m.reloadReqs) == 0 {
+				// it would wait for a request for ever: feed it one so that it can end
+				m.reloadReqs <- reloadRequest{}
+			}
+			sched.cur = th
+			th.resume <- struct{}{}
+			select {
+			case p := <-th.parked:
+				th.at = p
+			case <-time.After(c20Long()):
+				th.at = c20Park{done: true, ret: -2}
+			}
+			if len(sched.spawned) > 0 {
+				nt := <-sched.spawned
+				waitsFor[nt] = lastTaken
+				threads = append(threads, nt)
+			}
+			any = true
+		}
+		if !any {
+			break
+		}
+	}
+	return res
+}
+
+func TestVerifC20Micro(t *testing.T) {
+	verifEachLine(t, func(line []byte) any {
+		var cs c20MicroCase
+		if err := json.Unmarshal(line, &cs); err != nil {
+			return c20MicroResult{Panic: "bad case: " + err.Error()}
+		}
+		return c20RunMicro(cs)
 	})
 }
